@@ -644,9 +644,14 @@ class Generator:
                 self.out.add(line if line.endswith("\n") else line + "\n", o)
 
     # -- repo files ---------------------------------------------------------------------------
-    def emit_repo(self, relfile, mode="all", only=None, canary=True, extra_rules=()):
+    def emit_repo(self, relfile, mode="all", only=None, canary=True, extra_rules=(), outline_ret=None, header_rules=()):
+        self._header_rules = header_rules
         path = os.path.join(REPO, relfile)
         src = open(path).read()
+        self._premap = None
+        if outline_ret:
+            import outline
+            src, self._premap = outline.outline(src, outline_ret, self.log(relfile, None))
         toks, items = parse_file(src)
         offs = [0]
         for m in re.finditer("\n", src):
@@ -674,7 +679,10 @@ class Generator:
 
     def _origin(self, tokidx, fnpath=None):
         relfile, src, toks, offs = self._cur
-        return {"o": "repo", "f": relfile, "l": line_of(offs, toks[tokidx].start), "fn": fnpath}
+        ln = line_of(offs, toks[tokidx].start)
+        if getattr(self, "_premap", None):
+            ln = self._premap[min(ln, len(self._premap)) - 1]
+        return {"o": "repo", "f": relfile, "l": ln, "fn": fnpath}
 
     def _emit_item(self, it, only, canary, extra_rules, depth=0):
         relfile, src, toks, offs = self._cur
@@ -704,6 +712,8 @@ class Generator:
             # header
             edits = Edits()
             rule_attrs(toks, it.a0, it.open, edits, self.log(relfile, it.path()))
+            for r in getattr(self, "_header_rules", ()):
+                r(toks, it.a0, it.open, edits, self.log(relfile, it.path()), it)
             if blk is not None:
                 for a in blk.attrs:
                     self.out.add(a + "\n", {"o": "spec", "f": blk.specfile, "l": blk.line, "fn": it.path()})
@@ -784,7 +794,14 @@ class Generator:
         fnpath = it.path()
         in_trait_impl = it.parent is not None and it.parent.kind == "impl" and " for " in it.parent.name
         variants = [False]
-        if canary and it.open is not None and not in_trait_impl and not (blk is not None and blk.stub):
+        trait_canary = None
+        if canary and it.open is not None and in_trait_impl and blk is not None and not blk.stub and blk.clauses:
+            # canary of a trait method: an inherent copy `impl TYPE { fn name__canary .. }` with Self::X read as <Self as TRAIT>::X
+            hdr_text = "".join(t_ for t_, _ in (getattr(self, "_impl_header", None) or []))
+            m_ = re.match(r"^\s*impl\s+([^<{][^{]*?)\s+for\s+([^{]+?)\s*\{\s*$", hdr_text, re.S)
+            if m_ and "where" not in hdr_text and not re.search(r"\bSelf\s*::\s*(?!Error\b|Output\b|Target\b|Item\b)[A-Z]", toktext(toks, it.a0, it.end)):
+                trait_canary = ("", m_.group(1), m_.group(2))
+        if canary and it.open is not None and (not in_trait_impl or trait_canary) and not (blk is not None and blk.stub):
             variants.append(True)
         info = {"file": relfile, "path": fnpath, "name": it.name, "tags": list(blk.tags) if blk else [],
                 "labels": [], "stub": bool(blk and blk.stub) or self.stub_all, "has_contract": bool(blk and blk.clauses),
@@ -839,7 +856,19 @@ class Generator:
             self._flush(toks, it.a0, it.end, edits, fnpath + ("#canary" if is_canary else ""))
             self.out.add("\n", None)
             if is_canary:
-                self.canaries.append((getattr(self, "_impl_header", None), self.out.segs))
+                hdr = getattr(self, "_impl_header", None)
+                segs = self.out.segs
+                if trait_canary:
+                    g_, tr_, ty_ = trait_canary
+                    hdr = [("impl%s %s {" % (g_, ty_), None)]
+                    segs = list(segs)
+                    for i_ in range(len(segs) - 2):
+                        if segs[i_][0] == "Self" and segs[i_ + 1][0] == "::" and segs[i_ + 2][0] in ("Error", "Output", "Target", "Item"):
+                            segs[i_] = ("<Self as %s>" % tr_, segs[i_][1])
+                # canaries live one module deeper: `super::X` in the copied text must climb one more level
+                segs = [(("super::super" if (t_ == "super" and i_ + 1 < len(segs) and segs[i_ + 1][0] == "::" and (i_ == 0 or segs[i_ - 1][0] != "::")) else t_), o_)
+                        for i_, (t_, o_) in enumerate(segs)]
+                self.canaries.append((hdr, segs))
                 self.out = main_out
 
     # -- contract splicing ----------------------------------------------------------------------
@@ -1069,7 +1098,7 @@ def generate(unit, outdir):
         elif part[0] == "repo":
             g.stub_all = bool(opts.get("stub_all"))
             g.emit_repo(part[1], only=opts.get("only"), canary=opts.get("canary", True) and not g.stub_all,
-                        extra_rules=opts.get("rules", ()))
+                        extra_rules=opts.get("rules", ()), outline_ret=opts.get("outline"), header_rules=opts.get("header_rules", ()))
             g.stub_all = False
     if cur_mod is not None:
         g.out.add("\n} // mod %s\n" % cur_mod, None)
